@@ -17,7 +17,7 @@ WEIGHTS = [("hostile", 3), ("plain", 2), ("deep", 2), ("multi", 1)]
 
 
 def plan(tier, seed):
-    return _sim.plan_profiles(tier, seed, WEIGHTS, 1200, 50000)
+    return _sim.plan_profiles(tier, seed, WEIGHTS, 3500, 60000)
 
 
 def build(desc):
